@@ -16,17 +16,19 @@ let xor_hex (a : string) (t : string) : string =
   String.init (String.length a) (fun i -> "0123456789abcdef".[(hexval a.[i]) lxor (hexval t.[i])])
 (* equal length lowercase hex: string order = numeric order *)
 
-type ev = S of int | E of int | T of int | C
+type ev = S of int | E of int | T of int * bool | C
 
 let parse_events s =
   List.map (fun e ->
     if e = "C" then C else
-    let k = int_of_string (String.sub e 1 (String.length e - 1)) in
-    match e.[0] with 'S' -> S k | 'E' -> E k | 'T' -> T k | _ -> failwith "event") (split ',' s)
+    let plus = e.[String.length e - 1] = '+' in
+    let body = if plus then String.sub e 0 (String.length e - 1) else e in
+    let k = int_of_string (String.sub body 1 (String.length body - 1)) in
+    match e.[0] with 'S' -> S k | 'E' -> E k | 'T' -> T (k, plus) | _ -> failwith "event") (split ',' s)
 
 (* ------------------------------------------------------------------ monitors on the implementation log *)
 let lookup_monitors ~(ids : string array) ~(target : string) ~(table : int list) ~(answers : (int, int list) Hashtbl.t)
-    ~(events : ev list) ~(result : int list) ~(seen_impl : int list) : string list =
+    ~(events : ev list) ~(result : int list) ~(seen_impl : int list) ~(undrained : int) : string list =
   let fails = ref [] in
   let fail k d = if not (List.exists (fun s -> starts s k) !fails) then fails := (k ^ " " ^ d) :: !fails in
   (* in flight, asked twice, self asked *)
@@ -39,7 +41,16 @@ let lookup_monitors ~(ids : string array) ~(target : string) ~(table : int list)
       Hashtbl.replace started i ();
       if i = 0 then fail "self-asked" "query function called for the local node"
     | E _ -> decr infl
+    | T (i, success) ->
+      (* lookup.query -> tab.trackRequest(n, success, r): success iff the reply had at least one entry (C10_query_success_flag) *)
+      let r : n option list = match Hashtbl.find_opt answers i with
+        | Some l -> List.map (fun _ -> None) l | None -> [] in
+      let expect = track_success r in
+      if success && not expect then fail "fruitless-query-reported-as-success" (Printf.sprintf "peer %d answered with no node, trackRequest got success=true" i)
+      else if (not success) && expect then fail "fruitful-query-reported-as-failure" (Printf.sprintf "peer %d answered with nodes, trackRequest got success=false" i)
     | _ -> ()) events;
+  (* shutdown waits for every query in flight (C10_cancel_drains / C10_finished: nothing is pending when run returns) *)
+  if undrained > 0 then fail "lookup-did-not-drain-on-cancel" (Printf.sprintf "%d query functions still running when run() returned" undrained);
   let d i = if i >= 0 && i < Array.length ids then xor_hex ids.(i) target else "~" in
   (* result: sorted, duplicate-free, bounded *)
   let rec chk = function
@@ -109,29 +120,31 @@ let handle_lk fields impl =
       | None -> [] in
     if starts impl "err timeout" then
       (Some "ok (the model always terminates)", ["lookup-did-not-terminate " ^ impl])
+    else if starts impl "panic" then
+      (Some "ok (the model never panics)", ["lookup-goroutine-panics " ^ impl])
     else begin
       match String.split_on_char ' ' impl with
-      | ["ok"; evs; closest; result; asked; seen; queries] ->
+      | ["ok"; evs; closest; result; asked; seen; queries; undr] ->
         let events = parse_events evs in
         let posS = Array.make nn (-1) and posE = Array.make nn (-1) and posT = Array.make nn (-1) in
         let posC = ref (-1) in
         List.iteri (fun k e -> match e with
           | S i -> if i < nn && posS.(i) < 0 then posS.(i) <- k
           | E i -> if i < nn && posE.(i) < 0 then posE.(i) <- k
-          | T i -> if i < nn && posT.(i) < 0 then posT.(i) <- k
+          | T (i, _) -> if i < nn && posT.(i) < 0 then posT.(i) <- k
           | C -> posC := k) events;
         let nS = List.length (List.filter (function S _ -> true | _ -> false) events) in
-        let mons = lookup_monitors ~ids:idh ~target ~table:tbl ~answers:ans_tbl ~events ~result:(idxs result) ~seen_impl:(idxs seen) in
+        let mons = lookup_monitors ~ids:idh ~target ~table:tbl ~answers:ans_tbl ~events ~result:(idxs result) ~seen_impl:(idxs seen) ~undrained:(int_of_string undr) in
         (* model's closest, printed the same way *)
         let tbl_n = List.map (fun i -> ids.(i)) tbl in
         let m_closest = match findnode_by_id key tbl_n bucket_size with
           | Ok l -> show_idxs (List.map to_idx l) | _ -> "panic" in
         let show (s : lk) =
-          Printf.sprintf "ok %s %s %s %s %s %d" evs m_closest
+          Printf.sprintf "ok %s %s %s %s %s %d %d" evs m_closest
             (show_idxs (List.map to_idx s.result))
             (show_idxs (List.sort compare (List.map to_idx s.asked)))
             (show_idxs (List.sort compare (List.map to_idx s.seen)))
-            (int_z s.queries) in
+            (int_z s.queries) (List.length s.pending) in
         let first_fail = ref None in
         let budget = ref 400000 in
         let visited = Hashtbl.create 1024 in
@@ -228,9 +241,11 @@ let handle_cl fields impl =
         List.filter_map (fun j -> if j >= 0 && j < nn then Some (Some ids.(j)) else None) (idxs (String.sub ans.(i) 1 (String.length ans.(i) - 1)))
       else [] in
     if starts impl "err timeout" then (Some "ok", ["lookup-did-not-terminate content-lookup " ^ impl]) else
+    if starts impl "panic" then (Some "ok", ["lookup-goroutine-panics content-lookup " ^ impl]) else
     (match String.split_on_char ' ' impl with
-     | ["ok"; evs; outcome] ->
+     | ["ok"; evs; outcome; undr] ->
        let events = List.map (fun e ->
+         let e = if e.[String.length e - 1] = '+' then String.sub e 0 (String.length e - 1) else e in
          let k = int_of_string (String.sub e 1 (String.length e - 1)) in (e.[0], k)) (split ',' evs) in
        let posS = Array.make nn (-1) and posA = Array.make nn (-1) and posT = Array.make nn (-1) in
        List.iteri (fun k (c, i) -> if i >= 0 && i < nn then
@@ -242,6 +257,16 @@ let handle_cl fields impl =
        let mons = ref [] in
        let add m = if not (List.mem m !mons) then mons := m :: !mons in
        let has_dup l = List.length (List.sort_uniq compare l) <> List.length l in
+       if int_of_string undr > 0 then add ("lookup-did-not-drain-on-cancel content-lookup: " ^ undr ^ " peers had not answered when ContentLookup returned");
+       List.iter (fun e ->
+         if e.[0] = 'T' then begin
+           let plus = e.[String.length e - 1] = '+' in
+           let body = if plus then String.sub e 1 (String.length e - 2) else String.sub e 1 (String.length e - 1) in
+           let i = int_of_string body in
+           let r : n option list = List.map (fun _ -> None) (ans_of i) in
+           if plus && not (track_success r) then add (Printf.sprintf "fruitless-query-reported-as-success content-lookup peer %d" i)
+           else if (not plus) && track_success r then add (Printf.sprintf "fruitful-query-reported-as-failure content-lookup peer %d" i)
+         end) (split ',' evs);
        if has_dup st || has_dup queried then add "peer-asked-twice content-lookup";
        if List.mem 0 st || List.mem 0 queried then add "self-asked content-lookup";
        let infl = ref 0 in
@@ -270,8 +295,8 @@ let handle_cl fields impl =
            let fin = List.fold_left (fun c i -> cwork cans c ids.(i)) (cinit ids.(0)) order in
            let holders = List.filter_map (fun i -> if is_content i then Some (content_of i) else None) q in
            match content_result fin, found_c with
-           | None, None -> raise (Found impl)
-           | Some _, Some c when List.mem c holders -> raise (Found impl)
+           | None, None -> raise (Found (Printf.sprintf "ok %s %s 0" evs outcome))
+           | Some _, Some c when List.mem c holders -> raise (Found (Printf.sprintf "ok %s %s 0" evs outcome))
            | Some _, _ -> note ("ok " ^ evs ^ " found:<one-of-the-queried-holders>")
            | None, Some _ -> note ("ok " ^ evs ^ " notfound")
          end in
